@@ -1,9 +1,13 @@
 #!/bin/sh
-# developer tool: confirm a seeded change (patch.diff + demo.py in DIR) and run the property's quick check against it.
-#   tools/seedcheck.sh C01 /tmp/seedout-C01-a [extra check ids...]
-pid=$1; dir=$2; shift 2
+# developer tool: confirm a seeded change (patch.diff + demo.py in DIR) and run quick checks against it.
+#   tools/seedcheck.sh /tmp/seedout-C01-a C01 [more check ids...]
+dir=$1; shift
+checks="$*"
 cd /verif
-echo "== demo on the unchanged tree:"; PYTHONPATH=/repo/src timeout 120 /venv/bin/python $dir/demo.py >/tmp/seeddemo.out 2>&1; echo "DEMO-CLEAN-EXIT=$?"
-TPMON_SHARDS=${TPMON_SHARDS:-8} tools/mutate.py --patch $dir/patch.diff --tests tests -- sh -c "
-  PYTHONPATH=\$TPMON_REPO timeout 120 /venv/bin/python $dir/demo.py > /tmp/seeddemo2.out 2>&1; echo DEMO-CHANGED-EXIT=\$?; tail -2 /tmp/seeddemo2.out | cut -c1-200
-  for c in $pid $@; do ./check \$c --tier quick 2>&1 | grep -v '^KNOWN' | tail -4 | cut -c1-300; echo CHECK-\$c-EXIT=\$?; done"
+PYTHONPATH=/repo/src timeout 120 /venv/bin/python $dir/demo.py >/tmp/seeddemo.out 2>&1; echo "DEMO-CLEAN-EXIT=$?"
+cat > /tmp/seedcheck_inner.sh <<INNER
+PYTHONPATH=\$TPMON_REPO timeout 120 /venv/bin/python $dir/demo.py > /tmp/seeddemo2.out 2>&1; echo DEMO-CHANGED-EXIT=\$?
+tail -2 /tmp/seeddemo2.out | cut -c1-200
+for c in $checks; do ./check \$c --tier quick > /tmp/seedcheck_\$c.out 2>&1; rc=\$?; grep -v '^KNOWN' /tmp/seedcheck_\$c.out | tail -4 | cut -c1-300; echo CHECK-\$c-EXIT=\$rc; done
+INNER
+TPMON_SHARDS=${TPMON_SHARDS:-8} tools/mutate.py --patch $dir/patch.diff --tests tests -- sh /tmp/seedcheck_inner.sh
